@@ -1200,8 +1200,8 @@ func (fg *FuncGen) execReturn(x *ssa.Return) {
 		results = append(results, v)
 	}
 	fg.returns = append(fg.returns, retEdge{cond: fg.reach, st: fg.cur, results: results, pos: x.Pos()})
-	if fg.ct != nil && fg.ct.ExitsSeparate {
-		fg.checkExit(fg.cur, results)
+	if fg.ct != nil && fg.ct.ExitsSeparate && fg.inlineDepth == 0 {
+		fg.checkExit(fg.cur, results) // (a return of a body executed inline is not an exit of this function)
 	}
 }
 
